@@ -19,8 +19,10 @@ func init() {
 			"(R5) varint.GetNextBlock, which extracts the meta block, bounds the decoded length in the unsigned domain with the prefix accounted for (same rule as C10-R4); (R4) the data-format identifier is written with the codec the reader uses (varint.Pack8 / Unpack8). " +
 			"(R6) every constant-bound index/slice in the repo functions statically reachable from the record parsers is dominated by a length test implying the bound. " +
 			"(R7) in every Record.Marshal implementation a deleted record yields no data before any other rejection can apply: each error exit other than the missing-meta one is reachable only past the Deleted test (sibling agreement Base/Wrapper; shared with C13-R7). " +
+			"(R8) error discipline over package database/record: " + repoErrText + ". " +
 			"NOT decided: round-trip equality for all records, totality of the third-party codecs.",
-		Rules: []ruleFn{c08R1, c08R2, c08R3, c08R4, func(c *Ctx, r *Report) { blockReaderRule(c, r, "C08-R5") }, c08R6, func(c *Ctx, r *Report) { deletedFirstRule(c, r, "C08-R7") }},
+		Rules: []ruleFn{c08R1, c08R2, c08R3, c08R4, func(c *Ctx, r *Report) { blockReaderRule(c, r, "C08-R5") }, c08R6, func(c *Ctx, r *Report) { deletedFirstRule(c, r, "C08-R7") },
+			repoErrRuleFor("C08-R8", 6, func(c *Ctx, fn *ssa.Function) bool { return short(fn.Pkg.Pkg.Path()) == "database/record" }, map[string]string{})},
 	})
 }
 
